@@ -1,5 +1,6 @@
 import Driver.Common
 import ScionTime.Model.ClientNtp
+import Driver.MainCtorOps
 open Driver ScionTime.Time64 ScionTime.NtpMath ScionTime.ClientNtp
 
 /-! Driver for the NTP client model (properties C03 and C05; harness command `c03`).
@@ -228,6 +229,10 @@ def step (_ : Unit) (toks : List String) : Unit × String := Id.run do
     | some _, some n =>
       if localAddrOk n then return ((), "bad-op") else return ((), "err addr")
     | _, _ => return ((), "bad-op")
-  | _ => return ((), "bad-op")
+  | _ =>
+    -- main.* : constructors / NTS configuration of timeservice.go (harness cmain, part ctor)
+    match mainCtorStep toks with
+    | some a => return ((), a)
+    | none => return ((), "bad-op")
 
 def main : IO Unit := run () step
